@@ -155,15 +155,23 @@ def write_kwargs(case):
     return kw
 
 
-def header_lines(h):
-    """Physical lines of a custom header after `_write_swc` terminated it (what `SwcText.lines (terminate h)` is)."""
+def raw_header_lines(h):
+    """Physical lines of the user's header string (newline-terminated)."""
     t = h if h.endswith('\n') else h + '\n'
     return t.split('\n')[:-1]
 
 
+def header_lines(h):
+    """Physical lines of a custom header as `_write_swc` writes it (what `SwcText.lines (headerText h)` is): a line that is neither a
+    `#` line nor empty up to carriage returns gets `# ` in front, then the text is newline-terminated."""
+    t = '\n'.join(l if (l.startswith('#') or l.strip('\r') == '') else '# ' + l for l in h.split('\n'))
+    t = t if t.endswith('\n') else t + '\n'
+    return t.split('\n')[:-1]
+
+
 def header_ok(h):
-    """Every physical line is a `#` line or empty up to carriage returns."""
-    return all(l.startswith('#') or l.strip('\r') == '' for l in header_lines(h))
+    """Every physical line of the user's string is already a `#` line or empty up to carriage returns (nothing to comment out)."""
+    return all(l.startswith('#') or l.strip('\r') == '' for l in raw_header_lines(h))
 
 
 def soma_list(x):
@@ -371,20 +379,11 @@ def judge_file(ctx, case, x, kw, nmap, path, d, report=None):
     # --- the text: header (generated as the source spells it / the user's string verbatim, newline-terminated), then one `k …\r` line per row
     ctx.corr(resp.get('textok'), '1', 'write_swc: the text of the file is not <header, newline-terminated> followed by one line per table row '
              '(character-level model SwcText.assemble / generated header lines of the source)', rc)
-    if hdr is not None and not header_ok(hdr):
-        # a header line that is neither a comment nor blank is written verbatim and read as data (open finding)
-        ctx.corr(resp.get('hdrok'), '0', 'custom header: model and harness disagree on whether every header line is a comment', rc)
-        try:
-            navis.read_swc(path)
-            rd = 'ok'
-        except Exception:
-            rd = 'raises'
-        ctx.corr(rd, 'ok' if resp.get('parse') == '1' else 'raises', 'custom header with a non-comment line: read_swc vs the Lean parser on the same bytes', rc)
-        ctx.oracle(False, f'write_swc(header={hdr!r}) writes the header line(s) without "#" verbatim: the file is not a valid SWC table '
-                   f'(read_swc {rd})', rc, signature='write_swc/custom-header/line-without-comment-prefix')
-        return
+    # a header line that is neither a comment nor blank is turned into a comment by write_swc (finding
+    # write_swc/custom-header/line-without-comment-prefix, fixed): every header is judged like any other
     if hdr is not None:
-        ctx.corr(resp.get('hdrok'), '1', 'custom header: model and harness disagree on whether every header line is a comment', rc)
+        ctx.oracle(resp.get('hdrok') == '1', f'write_swc(header={hdr!r}): a line of the written header is neither a comment nor blank (it is read as data)', rc,
+                   signature='write_swc/custom-header/line-without-comment-prefix')
     # the reader model (read_header_rows + read_csv(skiprows, comment)) finds exactly the row lines, and the header rows are those of the header
     ctx.oracle(resp.get('dl') == '1', 'the lines a reader takes as data (everything after the leading # lines that is neither a comment nor blank) '
                'are not exactly the rows of the table: a row is glued to / hidden by the header or a header line is read as data', rc)
@@ -546,6 +545,9 @@ def judge_file(ctx, case, x, kw, nmap, path, d, report=None):
     ctx.count('meta_mode', wm if isinstance(wm, str) else type(wm).__name__)
     # --- dtypes and rounding: precision p casts ids to int<p>, coordinates / radius to float<p> (base.parse_precision) -----------
     ip, fp = {16: ('int16', 'float16'), 32: ('int32', 'float32'), 64: ('int64', 'float64'), None: ('int64', 'float64')}[prec]
+    if prec is not None and zt:
+        # IDs keep the requested width when it holds them, otherwise the next of 32 / 64 bit that does (Lean `idBits`)
+        ip = 'int' + ctx.ask(f'c07.idbits {prec} {min(min(a[0], a[1]) for a in zt)} {max(max(a[0], a[1]) for a in zt)}')
     dts = {c: str(z.nodes[c].dtype) for c in ('node_id', 'parent_id', 'x', 'y', 'z', 'radius')}
     ctx.oracle(dts['node_id'] == ip and dts['parent_id'] == ip and all(dts[c] == fp for c in ('x', 'y', 'z', 'radius')),
                f'read_swc(precision={prec}): column dtypes {dts}, expected {ip} / {fp}', rc)
@@ -558,7 +560,7 @@ def judge_file(ctx, case, x, kw, nmap, path, d, report=None):
     ctx.count('precision', prec)
     # --- sources ------------------------------------------------------------------------------------------
     if case.get('sources'):
-        check_sources(ctx, case, d, path, text, z, rkw, rc)
+        check_sources(ctx, case, d, path, text, z, rkw, rc, soma_by_label=resp.get('soma') != 'nan')
 
 
 def dense_rank(vals):
@@ -619,7 +621,7 @@ def _first_bad(rows_s):
 # ------------------------------------------------------------------------------------------------
 # sources
 # ------------------------------------------------------------------------------------------------
-def check_sources(ctx, case, d, path, text, z, rkw, rc=None):
+def check_sources(ctx, case, d, path, text, z, rkw, rc=None, soma_by_label=True):
     rc = rc if rc is not None else case
     ref = table_of(z)
     srcs = {
@@ -650,7 +652,10 @@ def check_sources(ctx, case, d, path, text, z, rkw, rc=None):
         df.columns = list(swc_io.NODE_COLUMNS)
         y = navis.read_swc(df, **rkw)
         ctx.oracle(isinstance(y, navis.TreeNeuron) and tables_equal(table_of(y), ref), 'read_swc from a DataFrame yields a different node table', rc)
-        ctx.oracle(_same_soma(y, z), f'read_swc from a DataFrame: soma {y.soma} vs {z.soma}', rc)
+        # a DataFrame carries no header, hence no units: when no row has `soma_label`, navis' fall-back soma detection (radius in units)
+        # may legitimately differ from the read of the file; compare the soma only when it is found by its label
+        if soma_by_label:
+            ctx.oracle(_same_soma(y, z), f'read_swc from a DataFrame: soma {y.soma} vs {z.soma}', rc)
         ctx.count('source', 'DataFrame')
     except Exception as e:
         ctx.oracle(False, f'read_swc from a DataFrame raised {type(e).__name__}: {str(e)[:120]}', rc)
@@ -1089,11 +1094,9 @@ def case_readopt(ctx, case):
                 ctx.oracle(got == base[limit], f'read_swc({src_kind}, limit=slice{tuple(val)}) read {got}, expected {base[limit]}', case)
             elif kind == 'sub':
                 want = [b for b in base if val in b]
-                sig = None
-                if src_kind == 'folder' and val in d and val not in os.path.basename(sub):
-                    continue          # the random scratch path happens to contain the substring: not a controlled input
-                if src_kind == 'folder' and val in os.path.basename(sub) and got == base and got != want:
-                    sig = 'read_swc/limit-substring/folder-matches-full-path'
+                # (the folder itself may carry the text in its name: a `limit` string is a *file name* pattern — finding
+                # read_swc/limit-substring/folder-matches-full-path, fixed)
+                sig = 'read_swc/limit-substring/folder-matches-full-path' if (src_kind == 'folder' and val in str(sub)) else None
                 ctx.oracle(got == want, f'read_swc({src_kind}, limit={val!r}) read {got}, the names containing it are {want}', case, signature=sig)
             elif kind == 'regex':
                 want = [b for b in base if _re.search(val, b)]
@@ -1170,6 +1173,12 @@ def case_bigid(ctx, case):
     ctx.count('bigid', f'{prec}:{"over" if over else "fits"}')
     ctx.oracle(got == want, f'read_swc(precision={prec}): ids / parents {got} differ from the table {want}', case,
                signature='read_swc/precision/id-exceeds-int-range' if over else None)
+    if prec is not None:
+        # the ID columns keep the requested width when it holds them and are widened (32, 64 bit) otherwise: Lean `idBits`
+        want_dt = 'int' + ctx.ask(f'c07.idbits {prec} {min(ids + par)} {max(ids + par)}')
+        dts = (str(z.nodes.node_id.dtype), str(z.nodes.parent_id.dtype))
+        ctx.corr(dts, (want_dt, want_dt), f'read_swc(precision={prec}): dtypes of node_id / parent_id for ids spanning {min(ids + par)}..{max(ids + par)} vs idBits', case)
+        ctx.oracle(str(z.nodes.x.dtype) == f'float{prec}', f'read_swc(precision={prec}): coordinates are {z.nodes.x.dtype}', case)
 
 
 # ------------------------------------------------------------------------------------------------
@@ -1458,6 +1467,11 @@ def run(ctx):
             case['subs'] = case['subs'][:1]
         ctx.case(case, nontrivial=True)
         case_many(ctx, case)
+    # fixed cases first (past defects of `limit`: integer on archives, list of names on folders / zips, plain text vs the folder's own path)
+    for lim_, dn_ in ((['int', 1], 'lib'), (['int', 2], 'lib'), (['list', ['zz4', 'qa1']], 'lib'), (['sub', 'zz'], 'lib_zz'), (['sub', 'qa'], 'qa_lib')):
+        case = dict(kind='readopt', stems=['qa1', 'zz4', 'qb2', 'qa3'], limit=lim_, subdirs=False, deep=True, hidden=True, dirname=dn_)
+        ctx.case(case, nontrivial=True)
+        case_readopt(ctx, case)
     for k in range(ctx.budget(30, 300)):
         case = gen_readopt_case(r)
         ctx.case(case, nontrivial=True)
@@ -1478,7 +1492,7 @@ def run(ctx):
         'the model order (sortByDepth); histogram historical_order_would_be counts the inputs on which the former parent_id sort was invalid',
         'export_connectors=True on a skeleton without connector table raises ValueError (x.presynapses); modelled as writeRaises',
         'a synapse label overrides the soma label on the same node (one label per node); counted, not flagged',
-        'write_swc(header=<str>) writes the string verbatim plus a final line break; write_meta is ignored then (documented): units / id come '
+        'write_swc(header=<str>) writes the string with its non-comment, non-blank lines turned into comments ("# " prepended) plus a final line break; write_meta is ignored then (documented): units / id come '
         'back only if the header itself carries a Meta line among its leading # lines',
         'write_swc(NeuronList | → zip, return_node_map=True) returns None (write_many / write_zip drop the maps); the round trip of list writes is '
         'judged with the map of make_swc_table (same deterministic computation); histogram many_return',
@@ -1513,6 +1527,8 @@ def big_round_trip(ctx):
             ok = len(zp) == n and all(zp.get(nmap[int(i)]) == (nmap[int(p)] if p >= 0 else -1) for i, p in zip(ids, par))
             ctx.oracle(ok, f'round trip of a {n}-node skeleton at precision={prec}: parent links differ under the node map '
                        f'({len(z.root)} roots instead of 1)', case, signature='read_swc/precision/id-exceeds-int-range' if n >= 2 ** (prec - 1) else None)
+            want_dt = 'int' + ctx.ask(f'c07.idbits {prec} -1 {n}')
+            ctx.corr(str(z.nodes.node_id.dtype), want_dt, f'round trip of a {n}-node skeleton at precision={prec}: dtype of node_id vs idBits', case)
             ctx.count('big_round_trip', f'{prec}:{"ok" if ok else "ids-wrapped"}')
 
 
